@@ -1,7 +1,7 @@
 SPECIFICATION Spec
 CONSTANTS
   Side = "req"
-  KindSel <- AllKinds
+  KindSel <- KS1
   MaxGroups = 3
   Dev_S1_CdtcsNoSuppressBit = FALSE
   Dev_S2_ClearDddiInverted = FALSE
